@@ -231,6 +231,37 @@ func (d *ctxDir) materialize() (string, error) {
 	if err != nil {
 		return "", err
 	}
+	return root, d.materializeIn(root)
+}
+
+// materializeNested creates the same listing two levels below a directory that itself looks like a checkout of everything
+// (.git, go.mod, package.json, Dockerfile, Makefile): what is detected must depend on the directory's OWN listing only.
+// Returns (outer directory to remove, directory to analyse).
+func (d *ctxDir) materializeNested() (string, string, error) {
+	outer, err := os.MkdirTemp("", "wtfverif-ctxn")
+	if err != nil {
+		return "", "", err
+	}
+	for _, n := range []string{".git", "node_modules"} {
+		os.Mkdir(filepath.Join(outer, n), 0o755)
+	}
+	for _, n := range []string{"go.mod", "package.json", "Dockerfile", "Makefile", "Cargo.toml", "requirements.txt"} {
+		os.WriteFile(filepath.Join(outer, n), []byte("{}"), 0o644)
+	}
+	inner := filepath.Join(outer, "services", "api")
+	if err := os.MkdirAll(inner, 0o755); err != nil {
+		os.RemoveAll(outer)
+		return "", "", err
+	}
+	if err := d.materializeIn(inner); err != nil {
+		os.RemoveAll(outer)
+		return "", "", err
+	}
+	return outer, inner, nil
+}
+
+func (d *ctxDir) materializeIn(root string) error {
+	var err error
 	for _, n := range d.listed {
 		p := filepath.Join(root, n)
 		if d.isDir[n] {
@@ -240,10 +271,10 @@ func (d *ctxDir) materialize() (string, error) {
 		}
 		if err != nil {
 			os.RemoveAll(root)
-			return "", err
+			return err
 		}
 	}
-	return root, nil
+	return nil
 }
 
 // scriptsOracle: what encoding/json produces for the package.json content (the model's parameter).
@@ -523,6 +554,17 @@ func execContext(ops []string, mon *Mon) []string {
 			c2, _ := wtfctx.NewAnalyzer().AnalyzeDirectory(root)
 			v1, v2 := viewOf(c1), viewOf(c2)
 			monitorContext(mon, root, order, v1, v2)
+			// the same listing somewhere else (below a directory full of project markers): same detection
+			if outer, inner, e := d.materializeNested(); e == nil {
+				if cn, en := wtfctx.NewAnalyzer().AnalyzeDirectory(inner); en == nil {
+					if vn := viewOf(cn); !sameView(v1, vn) || strings.Join(v1.types, ",") != strings.Join(vn.types, ",") {
+						mon.Hit("C13", "context-not-deterministic", map[string]interface{}{"entries": order, "types": v1.types, "types_when_nested": vn.types,
+							"what": "the same listing analysed two levels below a directory holding .git, go.mod, package.json ... is detected differently: detection depends on more than the directory's listing"})
+					}
+					mon.Tag("context-nested-twin")
+				}
+				os.RemoveAll(outer)
+			}
 			// the boosts of ONE analysis, asked for repeatedly: where several project types boost the same word
 			// with different factors the merged value must not depend on the call (Go re-randomises map order)
 			if len(v1.types) > 1 {
